@@ -8,13 +8,19 @@
 //	                  middleware on an injected storage with a harness-owned virtual clock and at
 //	                  most one injected storage failure, compared with a reference token model;
 //	                  configurations: extractors x backends x single-use x faults, plus the
-//	                  redundant / conflicting Config fields dimension (harness_a_cfg.go).
+//	                  redundant / conflicting Config fields dimension (harness_a_cfg.go);
+//	                  plus the request-layout family (harness_c.go): the same histories without state
+//	                  de-duplication on ONE RequestCtx (reset between requests as fasthttp does) x
+//	                  request layouts, on the middleware's own store and on an injected storage that
+//	                  keeps the key strings it is given.
 package main
 
 import (
 	"flag"
 	"fmt"
+	"os"
 	"runtime/debug"
+	"runtime/pprof"
 	"sort"
 	"strings"
 	"sync"
@@ -79,6 +85,11 @@ func main() {
 	only := flag.String("only", "", "run only harness A or B (debugging)")
 	onlyCfg := flag.String("cfg", "", "harness A: run only configurations whose name contains this text (debugging)")
 	r := core.Start("C16")
+	if pf := os.Getenv("C16_CPUPROFILE"); pf != "" { // diagnostics only
+		if f, err := os.Create(pf); err == nil {
+			_ = pprof.StartCPUProfile(f)
+		}
+	}
 	debug.SetGCPercent(200)  // every execution builds a fresh app: allocation-heavy, small live heap
 	if r.Deadline.IsZero() { // internal budget: a capped run ends with exhaustive=false and exit 0
 		if r.Quick() {
@@ -93,6 +104,10 @@ func main() {
 	var bInfo map[string]any
 	if *only == "" || *only == "B" {
 		bInfo = runB(r, col, &samples)
+	}
+	var cInfo map[string]any
+	if *only == "" || *only == "A" || *only == "C" {
+		cInfo = runC(r, col, &samples, *onlyCfg) // request-layout family of harness A (harness_c.go); before the BFS, which is the part a wall-clock cap cuts
 	}
 	var aInfo map[string]any
 	if *only == "" || *only == "A" {
@@ -124,14 +139,34 @@ func main() {
 		}
 	}
 
+	if cInfo != nil && *onlyCfg == "" && len(r.P.Caps) == 0 {
+		// the life-cycle classes must have been exercised on the shared RequestCtx as well as on fresh ones
+		for _, cx := range []string{"shared", "fresh"} {
+			for _, need := range []string{"agree_pass", "agree_reject.deleted", "agree_reject.consumed", "agree_reject.expired", "agree_reject.not-issued"} {
+				if r.P.Counters["A.layouts."+cx+"."+need] == 0 {
+					core.Fatal("vacuous request-layout family: counter A.layouts.%s.%s is 0", cx, need)
+				}
+			}
+		}
+	}
+
 	cov := map[string]any{
 		"samples": samples,
-		"bounds":  map[string]any{"A": aInfo["bounds"], "B": bInfo["bounds"]},
+		"bounds":  map[string]any{"A": aInfo["bounds"], "B": bInfo["bounds"], "A_request_layout_family": cInfo["bounds"]},
+	}
+	if cInfo != nil {
+		cov["request_layout_family"] = cInfo
 	}
 	if aInfo != nil {
-		cov["states"] = aInfo["states"]
-		cov["transitions"] = aInfo["transitions"]
-		cov["traces_validated_against_impl"] = aInfo["traces"]
+		// states = distinct canonical states of the de-duplicating search + history-tree nodes of the
+		// request-layout family (not de-duplicated); a transition = one executed and judged operation
+		nodes := 0
+		if cInfo != nil {
+			nodes = int(cInfo["histories"].(int64))
+		}
+		cov["states"] = aInfo["states"].(int) + nodes
+		cov["transitions"] = aInfo["transitions"].(int) + nodes
+		cov["traces_validated_against_impl"] = aInfo["traces"].(int) + nodes
 		cov["max_depth"] = aInfo["max_depth"]
 		cov["per_config"] = aInfo["per_config"]
 		cov["time_sources"] = aInfo["time_sources"]
@@ -141,11 +176,12 @@ func main() {
 		cov["distinct_nontrivial"] = r.P.Counters["B.nontrivial"]
 		cov["rule"] = bInfo["rule"]
 	}
-	if *only == "B" {
+	if *only == "B" || *only == "C" {
 		cov["states"], cov["transitions"], cov["traces_validated_against_impl"] = 0, 0, 0
 	}
 	fmt.Printf("C16 A: states=%v transitions=%v max_depth=%v | B: evaluations=%d nontrivial=%d\n",
 		cov["states"], cov["transitions"], cov["max_depth"], r.P.Counters["B.evaluations"], r.P.Counters["B.nontrivial"])
+	pprof.StopCPUProfile()
 	r.Finish(core.Evidence{
 		Level:       "model_checking",
 		Exhaustive:  true,
@@ -153,6 +189,8 @@ func main() {
 		Coverage:    cov,
 		Assumptions: []string{
 			"handler-level drive (app.Handler() on a fake connection carrying peer address and TLS flag); fasthttp request parsing is exercised as is",
+			"A: the requests of a history are served by ONE fasthttp.RequestCtx that is reset between requests (user values, Request, Response) as fasthttp does on a keep-alive connection / through its ctx pool; the request-layout family repeats its histories on a fresh RequestCtx per request; a violation that disappears on fresh RequestCtxs carries the signature suffix reused-ctx-only. The bytes left in the RequestCtx buffers are not part of the canonical state key of the BFS, therefore the request-layout family does not de-duplicate states",
+			"A: the injected fiber.Storage keeps the key strings it is given (as fiber's own internal/storage/memory and other map-based storages do; entries are searched by comparing key bytes, no hashing) and copies values; the middleware's own in-memory store (no Storage configured) is run as is, minus its janitor goroutine (overlay dropgo)",
 			"A: expiry is owned by the harness only through the injected fiber.Storage (virtual clock); the middleware's own time.Now() reads (cookie Expires; session-backend Token.Expiration) stay on the wall clock and never fire inside a run, so session-middleware configurations only tick by idle+1 (all storage entries expire)",
 			"A: states are deduplicated by a canonical key (model live set with relative expiries, storage contents, client-held cookies/tokens, fault-used flag) modulo renaming of generated tokens and session ids; soundness rests on the middleware treating token strings opaquely",
 			"A: redundant/conflicting configurations: 'the configured extractor' is the explicit Extractor when one is set (documentation: KeyLookup is then ignored), otherwise the KeyLookup one; 'the CSRF cookie' is the cookie in which a safe request is observed to leave the generated token (not derived from KeyLookup/CookieName by the harness); when the extractor reads that very cookie the cookie-match conjunct holds by construction",
